@@ -68,12 +68,21 @@ impl Input {
 
     /// Creates the implementation of [`Source`] to feed to fontir.
     pub fn create_source(&self) -> Result<Box<dyn Source>, Error> {
-        match self {
-            Input::DesignSpacePath(path) => Ok(Box::new(DesignSpaceIrSource::new(path)?)),
-            Input::GlyphsPath(path) => Ok(Box::new(GlyphsIrSource::new(path)?)),
-            Input::FontraPath(path) => Ok(Box::new(FontraIrSource::new(path)?)),
-            Input::GlyphsMemory(source) => Ok(Box::new(GlyphsIrSource::new_from_memory(source)?)),
-        }
+        // Loading a source interprets untrusted input on the calling thread,
+        // outside of any job. Report a panic in a loader the way a panicking job
+        // is reported (see Workload::exec) instead of taking the process down.
+        let load = || -> Result<Box<dyn Source>, Error> {
+            match self {
+                Input::DesignSpacePath(path) => Ok(Box::new(DesignSpaceIrSource::new(path)?)),
+                Input::GlyphsPath(path) => Ok(Box::new(GlyphsIrSource::new(path)?)),
+                Input::FontraPath(path) => Ok(Box::new(FontraIrSource::new(path)?)),
+                Input::GlyphsMemory(source) => {
+                    Ok(Box::new(GlyphsIrSource::new_from_memory(source)?))
+                }
+            }
+        };
+        std::panic::catch_unwind(std::panic::AssertUnwindSafe(load))
+            .unwrap_or_else(|err| Err(Error::Panic(workload::get_panic_message(err))))
     }
 }
 
